@@ -247,6 +247,69 @@ DesiredMinTx)` after its arrival. -/
 theorem detection_time (s : Timed) (now : Nat) (r : St) (mult reqRx remTx : Nat) :
     (s.recv now r mult reqRx remTx).deadline = now + mult * max reqRx remTx := rfl
 
+/-! ### Transmission interval (RFC 5880 §6.8.7) -/
+
+/-- The interval to the next packet is the negotiated interval reduced by a jitter of 0–25 %
+(10–25 % when the detect multiplier is 1), whatever the random generator returns: never longer
+than the negotiated interval (≤ 90 % of it for multiplier 1), never shorter than 75 % (rounded
+down to the nanosecond). So a running session sends at least once per negotiated interval, i.e.
+at least `DetectMult` times per detection time of its peer. -/
+theorem send_interval_bounds (iv mult pct d : Nat) (h : computeInterval iv mult pct = some d) :
+    d ≤ iv ∧ 76 * iv ≤ 100 * d + 99 ∧ (mult = 1 → 100 * d ≤ 90 * iv) := by
+  unfold computeInterval at h
+  split at h
+  · cases h
+  · split at h
+    · cases h
+    · cases h
+      generalize hc : clampPct pct (if mult = 1 then minJitterDetectMult1 else minJitter) maxJitter = c
+      have hc24 : c ≤ 24 := by
+        rw [← hc]; unfold clampPct maxJitter minJitterDetectMult1 minJitter
+        repeat' split
+        all_goals omega
+      have hc10 : mult = 1 → 10 ≤ c := by
+        intro hm
+        rw [← hc, if_pos hm]; unfold clampPct maxJitter minJitterDetectMult1
+        repeat' split
+        all_goals omega
+      have h1 : iv * (100 - c) ≤ iv * 100 := Nat.mul_le_mul_left iv (by omega)
+      have h2 : iv * 76 ≤ iv * (100 - c) := Nat.mul_le_mul_left iv (by omega)
+      have h3 : mult = 1 → iv * (100 - c) ≤ iv * 90 := fun hm =>
+        Nat.mul_le_mul_left iv (by have := hc10 hm; omega)
+      generalize iv * (100 - c) = m at *
+      refine ⟨by omega, by omega, fun hm => ?_⟩
+      have := h3 hm
+      omega
+
+/-- `computeInterval` is defined (does not panic) exactly for a positive interval and a non-zero
+detect multiplier — which `validateParameters` guarantees before `Run` starts. -/
+theorem send_interval_defined (iv mult pct : Nat) :
+    (computeInterval iv mult pct).isSome = true ↔ (0 < iv ∧ mult ≠ 0) := by
+  unfold computeInterval
+  split
+  · simp; omega
+  · split
+    · simp; omega
+    · simp; omega
+
+/-! ### Reception checks (RFC 5880 §6.8.6, first part) -/
+
+/-- A packet reaches the state machine iff it passes the RFC's reception checks for a session
+without authentication, echo, demand mode and poll sequences: version 1, plausible length, non-zero
+detect multiplier, not multipoint, non-zero My Discriminator, and a zero Your Discriminator only
+in states Down and AdminDown. -/
+theorem accepted_iff (p : Pkt) :
+    shouldDiscard p = false ↔
+      (p.version = 1 ∧ 24 ≤ p.length ∧ p.detectMult ≠ 0 ∧ p.multipoint = false ∧ p.myDisc ≠ 0 ∧
+       (p.yourDisc ≠ 0 ∨ p.state = .adminDown ∨ p.state = .down) ∧
+       p.authPresent = false ∧ p.authHdrTyped = false ∧ p.poll = false ∧ p.final = false ∧
+       p.echoRx = 0 ∧ p.demand = false) := by
+  obtain ⟨ver, auth, len, mult, mp, my, your, st, aht, poll, fin, echo, dem⟩ := p
+  unfold shouldDiscard
+  dsimp only
+  cases auth <;> cases mp <;> cases aht <;> cases poll <;> cases fin <;> cases dem <;> cases st <;>
+    simp <;> omega
+
 /-! ### Non-vacuity -/
 
 example : recvStep .up .adminDown = .down := rfl
